@@ -210,11 +210,18 @@ theorem writeExt_extField {v n : Nat} {e : Bytes} (h : writeExt v = some (n, e))
         exact .two v (by omega) (by omega)
       · simp [h1, h2, h3] at h
 
-/-- a value is legal for its option number when decoding it and encoding it again gives the
-same bytes (valid UTF-8 for string options, minimal length for integer options) -/
+/-- a value is legal for its option number *in a request, response or empty message* when
+decoding it in the format registered for that number and encoding it again gives the same bytes
+(valid UTF-8 for string options, minimal length for integer options) -/
 def Opt.legal (o : Opt) : Prop := decodeVal o.num o.val = some o.val
 
 instance (o : Opt) : Decidable o.legal := by unfold Opt.legal; exact inferInstance
+
+/-- in a signalling message every value is taken as it is -/
+theorem decodeValFor_sig (num : Nat) (raw : Bytes) : decodeValFor true num raw = some raw := rfl
+
+theorem decodeValFor_ordinary (num : Nat) (raw : Bytes) :
+    decodeValFor false num raw = decodeVal num raw := rfl
 
 theorem payloadPart_eq (p : Bytes) : payloadPart p = Rfc8323.payloadBytes p := by
   cases p <;> simp [payloadPart, Rfc8323.payloadBytes]
@@ -249,13 +256,13 @@ theorem encodeOpts_optList (opts : List Opt) :
             subst henc
             exact .cons (by omega) (writeExt_extField hd) (writeExt_extField hl) (ih _ _ hr)
 
-/-- `Options.decode` reads every RFC 7252 §3.1 option list with legal values, whatever payload
-part follows -/
-theorem decodeOptsF_optList {cur : Nat} {opts : List Opt} {ob : Bytes} (payload : Bytes)
-    (h : Rfc8323.OptList cur opts ob) :
-    ∀ (fuel : Nat), (∀ o ∈ opts, o.legal) →
+/-- the option walkers read every RFC 7252 §3.1 option list whose values they take as they are
+(`sig = true`: all; `sig = false`: the legal ones), whatever payload part follows -/
+theorem decodeOptsF_optList {sig : Bool} {cur : Nat} {opts : List Opt} {ob : Bytes}
+    (payload : Bytes) (h : Rfc8323.OptList cur opts ob) :
+    ∀ (fuel : Nat), (∀ o ∈ opts, decodeValFor sig o.num o.val = some o.val) →
       (ob ++ Rfc8323.payloadBytes payload).length ≤ fuel →
-      decodeOptsF fuel cur (ob ++ Rfc8323.payloadBytes payload) = some (opts, payload) := by
+      decodeOptsF sig fuel cur (ob ++ Rfc8323.payloadBytes payload) = some (opts, payload) := by
   induction h with
   | nil cur =>
     intro fuel _ hfuel
@@ -269,7 +276,7 @@ theorem decodeOptsF_optList {cur : Nat} {opts : List Opt} {ob : Bytes} (payload 
     intro fuel hlegal hfuel
     obtain ⟨hd14, _, hdr⟩ := readExt_of_extField hd
     obtain ⟨hl14, _, hlr⟩ := readExt_of_extField hl
-    have hleg : decodeVal o.num o.val = some o.val := hlegal o (List.mem_cons_self)
+    have hleg : decodeValFor sig o.num o.val = some o.val := hlegal o (List.mem_cons_self)
     simp only [List.append_assoc, List.cons_append, List.nil_append, List.length_cons,
       List.length_append] at hfuel ⊢
     match fuel, hfuel with
@@ -289,10 +296,28 @@ theorem decodeOptsF_optList {cur : Nat} {opts : List Opt} {ob : Bytes} (payload 
 -- ---------------------------------------------------------------------------------------------
 -- frame round trip
 
-/-- a message the transport carries unchanged: every option value legal for its number -/
-def Msg.legal (m : Msg) : Prop := ∀ o ∈ m.opts, o.legal
+/-- a message the transport carries unchanged: a signalling message (code 7.xx) — whatever its
+option values, RFC 8323 §5.2 —, or a request, response or empty message every option value of
+which is legal for its number -/
+def Msg.legal (m : Msg) : Prop := m.code < 224 → ∀ o ∈ m.opts, o.legal
 
 instance (m : Msg) : Decidable m.legal := by unfold Msg.legal; exact inferInstance
+
+/-- every signalling message is legal: nothing is asked of its option values -/
+theorem Msg.legal_of_signalling {m : Msg} (h : m.code ≥ 224) : m.legal :=
+  fun h' => absurd h' (by omega)
+
+theorem Msg.legal_of_no_opts {m : Msg} (h : m.opts = []) : m.legal := by
+  intro _ o ho; rw [h] at ho; cases ho
+
+/-- what `legal` gives to the option walker `_decode_message` chooses for the code -/
+theorem Msg.legal_decodeValFor {m : Msg} (hm : m.legal) :
+    ∀ o ∈ m.opts, decodeValFor (decide (m.code ≥ 224)) o.num o.val = some o.val := by
+  intro o ho
+  by_cases h : m.code ≥ 224
+  · simp [h, decodeValFor]
+  · have : decodeVal o.num o.val = some o.val := hm (by omega) o ho
+    simpa [h, decodeValFor] using this
 
 /-- `_serialize` writes RFC 8323 messages -/
 theorem serialize_message {m : Msg} {b : Bytes} (h : serialize m = some b) :
@@ -308,8 +333,8 @@ theorem serialize_message {m : Msg} {b : Bytes} (h : serialize m = some b) :
       rw [payloadPart_eq] at h
       exact ⟨ob, encodeOpts_optList _ _ _ ho, frameBytes_frame (by omega) h⟩
 
-/-- `_decode_message` reads every RFC 8323 message with legal option values, and
-`_extract_message_size` finds exactly its end -/
+/-- `_decode_message` reads every RFC 8323 signalling message, and every other RFC 8323 message
+with legal option values, and `_extract_message_size` finds exactly its end -/
 theorem decodeMessage_of_message {m : Msg} {b : Bytes} (hm : m.legal)
     (h : Rfc8323.Message b m) :
     decodeMessage b = some m ∧ m.token.length ≤ 8 ∧
@@ -332,7 +357,8 @@ theorem decodeMessage_of_message {m : Msg} {b : Bytes} (hm : m.legal)
         (hdr.length + 1 + m.token.length) = ob ++ Rfc8323.payloadBytes m.payload := by
       rw [← List.drop_drop, hdrop1]; simp
     rw [hcode, hdrop1, hdrop2]
-    have hdec := decodeOptsF_optList m.payload ho _ hm (Nat.le_refl _)
+    have hdec := decodeOptsF_optList (sig := decide (m.code ≥ 224)) m.payload ho _
+      (Msg.legal_decodeValFor hm) (Nat.le_refl _)
     simp only [decodeOpts, hdec, List.take_left']
   · intro rest
     simp only [frameSize, hx rest, Option.map_some, Option.some.injEq]
